@@ -38,7 +38,7 @@ def run(a):
                     {"history": (h["header"] + [o[0] for o in h["ops"]] + ["E"]) if h else [], "variant": variant, "difference": rest})
     if len(samples) < 2 and hists:
         h = hists[sorted(hists)[0]]
-        samples.append({"history": h["header"][:3] + [o[0][:160] for o in h["ops"][:10]], "variants": ["fresh", "restart", "interleaved"]})
+        samples.append({"history": h["header"][:3] + [o[0][:160] for o in h["ops"][:10]], "variants": ["fresh", "restart", "interleaved", "consensus-params-restart"]})
     # multistore twin
     mout = os.path.join(c.WORK, "ms-%s-%d" % (a.tier, a.seed))
     with c.Lock("ms-run"):
